@@ -87,7 +87,7 @@ func c15Run(c *core.Ctx) {
 	}
 	// slopes as (num, den) in ms
 	type frac struct{ n, d int64 }
-	slopes := []frac{{1, 2}, {1, 1}, {3, 2}, {2, 1}, {25000, 23976}, {23976, 25000}, {30000, 29970}}
+	slopes := []frac{{1, 2}, {1, 1}, {3, 2}, {2, 1}, {25000, 23976}, {23976, 25000}, {30000, 29970}, {-1, 1}, {-3, 2}, {0, 1}} // also reversing and constant maps: every boundary still goes to its affine image
 	a1s := []int64{0, sec, 600 * sec, hour}
 	scales := []int64{ms, sec, 150 * sec} // (a2-a1) = den*scale
 	offsets := []int64{0, sec, -sec, hour}
